@@ -48,6 +48,25 @@ harnesses! {
         cover!(ok && newr < 0.55, "slow ratio");
         forget(r);
     }
+    #[kani::unwind(8)]
+    fn c14_ffo_grid(nd) {
+        let mut r = FastFixedOut::<f64>::new(1.0, 2.0, PolynomialDegree::Linear, 3, 1).unwrap();
+        let k = nd.u8();
+        let newr = (k as f64) / 32.0;
+        nd.assume(r.set_resample_ratio(newr, false).is_ok());
+        let mut st = Stream { supplied: 0, produced: 0, last: 0.0, have_last: false };
+        let mut tau = [0.0f64; 3];
+        let (ok, _, n) = call_line::<_, _, 14, 3>(nd, &mut r, &mut st, &mut tau);
+        check!(ok, "C03.ok[base]");
+        // frames whose window lies in supplied data: instant >= 0
+        delay_checks!(r, st, tau, n, 3, newr, 0.0, "C14.delay[base]");
+        let (ok, _, n) = call_line::<_, _, 14, 3>(nd, &mut r, &mut st, &mut tau);
+        check!(ok, "C03.ok[base]");
+        delay_checks!(r, st, tau, n, 3, newr, 0.0, "C14.delay[base]");
+        cover!(ok && newr > 1.9, "fast ratio");
+        cover!(ok && newr < 0.55, "slow ratio");
+        forget(r);
+    }
     // SincFixedOut with the probe: the probe's value is the centre of the kernel window, i.e.
     // the input instant the real (linear-phase, centred) kernel evaluates.
     #[kani::unwind(8)]
